@@ -362,7 +362,8 @@ impl<'p> Solver<'p> {
     fn eval_if_func(&mut self, t: &RT) -> Result<RT, String> {
         match self.s.walk(t) {
             RT::Func(name, args) => eval_function(&self.s, &name, &args),
-            other => Ok(other),
+            // not a function: the term as written (a variable stays a variable, so that `$Y = $Y` is seen as such)
+            _ => Ok(t.clone()),
         }
     }
 
